@@ -1,3 +1,4 @@
+mod cli;
 mod explore;
 mod extract;
 mod selfcheck;
@@ -54,6 +55,7 @@ fn main() {
         "C03" => props::c03::run(rest),
         "C04" => props::c04::run(rest),
         "C05" => props::c05::run(rest),
+        "C08" => props::c08::run(rest),
         "C09" => props::c09::run(rest),
         "C11" => props::c11::run(rest),
         "C12" => props::c12::run(rest),
